@@ -36,8 +36,8 @@ META = dict(
     need=["cl_cov_compared", "re_cov_compared", "cl_mirror_bitwise", "re_mirror_bitwise",
           "cl_pe_zero_checked", "re_pe_zero_checked", "cl_geovi_unchanged", "re_nonlinear_unchanged",
           "cl_sample_mean", "re_sample_mean", "smoke_chi2"],
-    quick=dict(cases=330, workers=6, budget_s=75),
-    thorough=dict(cases=6000, workers=16, budget_s=780),
+    quick=dict(cases=340, workers=8, budget_s=75),
+    thorough=dict(cases=10000, workers=16, budget_s=780),
     design_ref="DESIGN.md §5 C18",
     level_text=("exact observation of the residual map of the real samplers on generated small models; "
                 "exploration of models x drivers x options, not exhaustive"),
@@ -81,11 +81,15 @@ def _cov_oracle(mir, x0, liq):
 
 def case(ck, i):
     rng = ck.rng()
-    r = i % 12
-    if r == 11:
-        return smoke(ck, rng, "cl" if (i // 12) % 2 == 0 else "re")
-    if r % 3 == 2:
+    # the case family is drawn (not derived from i) so that the round-robin dealing of indices
+    # over workers does not put all the expensive JAX cases on the same worker
+    u = rng.uniform()
+    if u < 0.13:
         return case_re(ck, rng)
+    if u < 0.15:
+        return smoke(ck, rng, "re")
+    if u < 0.18:
+        return smoke(ck, rng, "cl")
     return case_cl(ck, rng)
 
 
@@ -96,7 +100,10 @@ def case_cl(ck, rng):
     ift = ck.state["ift"]
     sc = vh.get_clscript(ck, ift)
     linear = bool(rng.integers(0, 2))
-    m = vh.gen_model(rng, linear=linear)
+    geo = bool(linear and rng.integers(0, 3) == 0)
+    # classic geoVI needs likelihood.get_transformation() with a sampling dtype, which NIFTy's
+    # SandwichOperator (our dense inverse covariance) does not carry -> diagonal noise there
+    m = vh.gen_model(rng, linear=linear, noise_kinds=("diag",) if geo else ("diag", "diag", "dense"))
     mir = vh.Mirror(m)
     b = vh.build_cl(ift, m, rg=bool(rng.integers(0, 2)))
     dom = b["dom"]
@@ -109,7 +116,6 @@ def case_cl(ck, rng):
     pe = _subset(rng, keys) if len(keys) > 1 else []
     const = _subset(rng, keys, p_empty=0.6) if len(keys) > 1 else []
     napprox = 0 if route == "driver" else int(rng.choice([0, 0, 3]))
-    geo = bool(linear and rng.integers(0, 3) == 0)
     seed = int(rng.integers(0, 2**31))
     opt = dict(api="cl", route=route, mirror=mirror, ns=ns, pe=pe, const=const, napprox=napprox,
                geo=geo, seed=seed)
@@ -311,8 +317,8 @@ def case_re(ck, rng):
                 return
             allr = vh.re_vec(mir, smp._samples, batch=2 * nk)
             A, neg = allr[0::2], allr[1::2]
-            smp_mean = vh.re_vec(mir, jax.tree_util.tree_map(lambda a: jnp.mean(a, axis=0),
-                                                             vh.re_tree(smp.samples)))
+            full = vh.re_tree(smp.samples)               # public accessor: pos + residuals
+            smp_mean = vh.re_vec(mir, {k: np.mean(np.asarray(full[k]), axis=0) for k in keys})
     finally:
         rs.off()
 
